@@ -134,6 +134,14 @@ def suite_limits(tier):
                 ws = ws[:24]
             cases += run_list(L, ws, fe, "limits-fc%d" % fc)
             fe += 1
+    for L in (X.default_layout(False), X.samelist_layout(r, start=0, size=100), X.samelist_layout(r, start=1, size=40)):
+        # ModbusSlaveContext() default tables / all tables from one Python list object: invalid requests
+        # around valid writes, all blocks dumped
+        ws = []
+        for fc in X.DATA_FCS:
+            ws += limit_requests(r, L, fc)[:4]
+        r.shuffle(ws)
+        cases += run_list(L, ws, fe, "limits-" + L["mode"], chunk=20)
     if True:
         L = big_layout(r, 65536, 0, True)
         ws = []
